@@ -17,7 +17,20 @@ package agreement
 // periods; from the last deviation on the synchronous schedule runs. Configurations: 3 honest nodes
 // with threshold 2 of 3 (all online), and 3 honest nodes + 1 silent account with threshold 3 of 4
 // (every honest vote is needed for every quorum).
-// Oracle: every node that is still running commits round 1 at the latest in period
+// live-5nodes-softlate-nextsplit: 5 honest nodes, threshold 4 of 5, one round: the soft votes of one
+// period arrive 1 or 2 timeouts late everywhere AND/OR the next votes of one period reach one node at
+// once, any subset of the others two timeouts later and the rest never (5 x 16 delivery patterns) - so
+// period 0 can certify both bottom (step next) and a value (step next+1), known to different subsets;
+// deviations in period 0 (thorough: periods 0-1).
+// live-5nodes-2rounds-pipelining: 5 honest nodes, 4 of 5, two rounds: the cert votes of one (round,
+// period) reach one node two timeouts late or never (it keeps receiving the next round's proposal and
+// soft votes, which it pipelines) AND/OR one node stops for good; ledger catch-up only after a node has
+// been behind for 3 regular timeouts.
+// Seeded changes: C05-A (bundleFresh filters a previous-period next bundle below LastConcluding) DETECTED
+// in live-5nodes-softlate-nextsplit (3/2 split stuck in period 1 up to step next+9); C05-B (enterRound
+// returns before handling the pipelined threshold when a payload was pipelined) DETECTED in
+// live-5nodes-2rounds-pipelining (round 2 stuck in period 0); both at the quick tier.
+// Oracle: every node that is still running commits its round at the latest in period
 // (highest period of any node when the last deviation was taken) + K, K = 3; no node sits in one period
 // beyond step next+8; no panic inside submitTop.
 // K was fixed after measuring the unmodified tree: worst commit period - synchrony period = 2 (slack 1),
@@ -58,7 +71,20 @@ func c05Configs(scale int) []*eagrBFS {
 		b.devPeriods = 2
 		return b
 	}
+	p1of5 := []bool{true, false, false, false, false}
+	// 5 honest nodes, threshold 4 of 5. (b) period 0 can certify BOTH bottom (step next) and a value
+	// (step next+1) with the two quorums known to different subsets: the soft votes of one period
+	// arrive late everywhere, and the next votes of one period reach one node at once, any subset of
+	// the others two timeouts later and the rest never.
+	split := mk(eagrHonest5("live-5nodes-softlate-nextsplit", p1of5, 1, 12), eagrBudget(0, 0, 0, 0, 0, 0, 0).with(eagrDevFateSoftLate, 1).with(eagrDevFateSplit, 1), 2)
+	split.devPeriods = 1 + scale
+	// (c) two rounds with pipelining: the cert votes of one (round, period) reach one node two timeouts
+	// late (or never) while it keeps receiving the next round's proposal and soft votes; one other node
+	// stops for good; from then on the network is synchronous among the remaining 4 of 5.
+	pipe := mk(eagrHonest5("live-5nodes-2rounds-pipelining", p1of5, 2, 12), eagrBudget(0, 0, 0, 0, 0, 0, 0).with(eagrDevFateMiss, 1).with(eagrDevDown, 1), 2)
+	pipe.cfg.catchupDelay = 3
 	return []*eagrBFS{
+		split, pipe,
 		mk(eagrHonest3("live-3of3online", nil, nil, 1, 12), eagrBudget(2+k, 2+k, 0, 1, 0, 0, 0), int(2+k)),
 		mk(eagrByz4("live-3of4online", nil, 1, 12), eagrBudget(2+k, 1+k, 0, 1, 0, 0, 0), int(2+k)),
 	}
